@@ -172,7 +172,10 @@ func (p *Processor) ChargingDataCreate(
 
 	consumerId := chargingData.NfConsumerIdentification.NFName
 	if !chargingData.OneTimeEvent {
-		chargingSessionId = ueId + consumerId + strconv.Itoa(int(self.LocalRecordSequenceNumber))
+		// the counter is set off by a delimiter it cannot contain itself, so that
+		// two references with different counters never coincide (consumer "a1" with
+		// counter 2 and consumer "a" with counter 12 both gave "...a12")
+		chargingSessionId = ueId + consumerId + "-" + strconv.Itoa(int(self.LocalRecordSequenceNumber))
 	}
 	cdr, err := p.OpenCDR(chargingData, ue, chargingSessionId, false)
 	if err != nil {
